@@ -1550,8 +1550,12 @@ _ical_proc(struct ical_parser_s p[static 1U])
 				p->ve.t.max_simul = p->globve.t.max_simul;
 			}
 			if (!p->ve.t.run_as.u) {
-				/* bang run_as */
-				p->ve.t.run_as = p->globve.t.run_as;
+				/* bang run_as user, but leave the event's
+				 * working directory and shell alone */
+				p->ve.t.run_as.u = p->globve.t.run_as.u;
+			}
+			if (!p->ve.t.run_as.g) {
+				p->ve.t.run_as.g = p->globve.t.run_as.g;
 			}
 			/* copy global scale */
 			p->ve.cal = p->globve.cal;
